@@ -478,7 +478,8 @@ int main(int argc, char** argv)
   std::vector<SeedModel> seeds;
   {
     const char* root_env = std::getenv("VERIF_ROOT");
-    const std::string root = root_env ? root_env : "/verif";
+    std::string root = root_env ? root_env : "/verif";
+    { struct stat sb; if(stat((root + "/spec/mesh_seeds").c_str(), &sb) != 0) root = "/verif"; }
     struct SD { const char* name; const char* type; };
     const SD sds[] = {{"bezier_closed", "conformal:hypercube:2:2"}, {"partitions", "conformal:hypercube:2:2"}, {"edge1d", "conformal:hypercube:1:1"}, {"extrude3d", "conformal:hypercube:3:3"},
       {"tria2d", "conformal:simplex:2:2"}, {"quad2d", "conformal:hypercube:2:2"}, {"hexa3d", "conformal:hypercube:3:3"}, {"tetra3d", "conformal:simplex:3:3"},
